@@ -477,7 +477,7 @@ func init() {
 	})
 	vp("Assert", func(e *Exec, _ *frame, a []Value) Value {
 		id := e.argStr(a[0])
-		if e.prop != "" && !strings.HasPrefix(id, e.prop+".") && !strings.HasPrefix(id, "ALL.") {
+		if e.prop != "" && !assertBelongs(id, e.prop) {
 			// assertion of another property sharing this harness: logged for replay comparison, not checked
 			e.obs = append(e.obs, Observation{ID: id, Kind: "assert", Term: a[1].(*Term)})
 			return nil
@@ -943,4 +943,19 @@ func (k *KnownFinding) matches(harness, assert string) bool {
 		k.reA = regexp.MustCompile("^(" + k.Assert + ")$")
 	}
 	return k.reH.MatchString(harness) && k.reA.MatchString(assert)
+}
+
+// assertBelongs: an assertion id is "<P1>[,<P2>...].<name>"; it is checked when the property under
+// check is one of the listed ones (or the list is ALL).
+func assertBelongs(id, prop string) bool {
+	i := strings.IndexByte(id, '.')
+	if i < 0 {
+		return true
+	}
+	for _, p := range strings.Split(id[:i], ",") {
+		if p == prop || p == "ALL" {
+			return true
+		}
+	}
+	return false
 }
